@@ -31,6 +31,7 @@ def showFlags (l : List Nat) : String :=
 
 def step (_ : Unit) (line : String) : Unit × String :=
   let out := match words line with
+    | ["reset"] => "ok"
     | ["root", ids] => match parseList ids with
       | some l => toHex (merkleRoot sha3Fns l)
       | none => "bad-op"
